@@ -129,14 +129,23 @@ func (m *mux) Vars(r *http.Request) map[string]string {
 	if len(params.Keys) == 0 {
 		return nil
 	}
+	// chi routes on the escaped path (URL.RawPath) when there is one, in which
+	// case the captured values are still escaped. Otherwise it routes on
+	// URL.Path, which net/http has already unescaped: unescaping the values a
+	// second time would corrupt any value containing a literal "%XX" sequence.
+	escaped := r.URL.RawPath != ""
 	vars := make(map[string]string, len(params.Keys))
 	for i, k := range params.Keys {
+		v := params.Values[i]
+		if escaped {
+			v = unescape(v)
+		}
 		if k == "*" {
 			wildcard := m.wildcards[r.Method+"::"+ctx.RoutePattern()]
-			vars[wildcard] = unescape(params.Values[i])
+			vars[wildcard] = v
 			continue
 		}
-		vars[k] = unescape(params.Values[i])
+		vars[k] = v
 	}
 	return vars
 }
